@@ -280,7 +280,10 @@ class Extra:
 def run(run: Run):
     run.run_audit()
     specs = gen_specs(run)
-    sessions.run_sessions(run, specs, oracle, relevant=16)
+    sobs = sessions.run_sessions(run, specs, oracle, relevant=16)
+    # the challenges themselves: Gallina STROBE-128 / Merlin (Crypto/Strobe.v) replayed on the recorded operation logs, every challenge and RNG output byte for byte
+    from lib import merlinrep
+    merlinrep.replay_sessions(run, "c04", specs, sobs, 10 if run.tier == "quick" else 80)
     return run.finish(
         "proof",
         "for each configuration one accepted proof and one run per single-datum perturbation (context label / message / extra message, H, every Gb_k, bit "
